@@ -133,8 +133,17 @@ def check_django_shorthand(ctx: Ctx, env):
 def run(ctx: Ctx, env):
     repo = env.repo
     check_django_shorthand(ctx, env)
+    m = check_orm_shorthand(ctx, env)
 
-    # ---- SQLAlchemy ORM shorthand ---------------------------------------------------------------------------------
+    # ---- Core shorthand ---------------------------------------------------------------------------------------------
+    _check_chain(ctx, env, "sqlalchemy.apply_odata_core", "odata_query.sqlalchemy.shorthand", "apply_odata_core", "AstToSqlAlchemyCoreVisitor")
+    _run_rest(ctx, env, m)
+
+
+def check_orm_shorthand(ctx: Ctx, env):
+    """SQLAlchemy ORM shorthand: which relationships are joined, how, and when a join may be skipped (shared with C04)."""
+    repo = env.repo
+
     def orm_extra(ctx, p, t, calls, key, where):
         joins = [c for c in calls if c[0] in ("join", "outerjoin")]
         for c in joins:
@@ -220,8 +229,11 @@ def run(ctx: Ctx, env):
                       f"existing joins are reported as `{T.show(t, 120)}`: anything but the full str(<join target>) lets different relationships collide",
                       m.loc(helper), "base query joined on Ticket.owner, filter project/owner/name eq 'Core'")
 
-    # ---- Core shorthand ---------------------------------------------------------------------------------------------
-    _check_chain(ctx, env, "sqlalchemy.apply_odata_core", "odata_query.sqlalchemy.shorthand", "apply_odata_core", "AstToSqlAlchemyCoreVisitor")
+    return m
+
+
+def _run_rest(ctx: Ctx, env, m):
+    repo = env.repo
 
     # ---- R4 registry isolation -----------------------------------------------------------------------------------------
     reg_default = _sqlalchemy_registration_rule()
